@@ -1,2 +1,34 @@
 def minversion(module, version, inclusive=True):
     return True
+
+
+class lazyproperty:
+    """astropy.utils.lazyproperty: computes once, then serves the value cached in the instance __dict__"""
+
+    def __init__(self, fget, fset=None, fdel=None, doc=None):
+        self.fget = fget
+        self._key = fget.__name__
+
+    def __get__(self, obj, owner=None):
+        if obj is None:
+            return self
+        d = obj.__dict__
+        if self._key in d:
+            return d[self._key]
+        val = self.fget(obj)
+        d[self._key] = val
+        return val
+
+    def __set__(self, obj, val):
+        obj.__dict__[self._key] = val
+
+    def __delete__(self, obj):
+        del obj.__dict__[self._key]
+
+
+class classproperty:
+    def __init__(self, fget):
+        self.fget = fget
+
+    def __get__(self, obj, owner=None):
+        return self.fget(owner)
